@@ -705,9 +705,13 @@ class ElementList(cabc.MutableSequence[T], t.Generic[T]):
                 except Exception:
                     continue
                 for attr in obj_attrs:
-                    if not no_dir_attr.search(attr) and isinstance(
-                        getattr(obj, attr), str
-                    ):
+                    if no_dir_attr.search(attr):
+                        continue
+                    try:
+                        value = getattr(obj, attr)
+                    except Exception:
+                        continue
+                    if isinstance(value, str):
                         yield f"by_{attr}"
                         yield f"exclude_{attr}s"
 
